@@ -256,6 +256,47 @@ def runtime_checks():
                 if torch.equal(a, b):
                     bad.append(dict(case='coefficient table of another dtype than the radii', condition=cname, dtype=str(dt), r=1.3,
                                     violated='between the radii the result does not depend on the network'))
+    # a batch with exactly as many samples as there are coefficients (N = K): the table is still one row of K coefficients for EVERY sample;
+    # and a table that is replaced on a live condition (after it has been evaluated) is the table that counts from then on
+    from neurodiffeq.conditions import InfDirichletBVPSphericalBasis
+    K = 3
+    A, B, A2 = torch.tensor([1.0, -2.0, 0.5]), torch.tensor([0.25, 3.0, -1.0]), torch.tensor([7.0, 8.0, 9.0])
+    netKK = FCNN(1, K, hidden_units=(6,))
+    for rows in (K, 1, 2):
+        rr = lambda v: torch.full((rows, 1), float(v))
+        for cname, mk, pts in (('DirichletBVPSphericalBasis', lambda: DirichletBVPSphericalBasis(0.5, A.clone(), 2.0, B.clone()), ((0.5, 'R_0', A), (2.0, 'R_1', B))),
+                               ('DirichletBVPSphericalBasis (inner only)', lambda: DirichletBVPSphericalBasis(0.5, A.clone()), ((0.5, 'R_0', A),)),
+                               ('InfDirichletBVPSphericalBasis', lambda: InfDirichletBVPSphericalBasis(0.5, A.clone(), B.clone()), ((0.5, 'R_0', A),))):
+            c = mk()
+            for r_, attr, tab in pts:
+                got = c.enforce(netKK, rr(r_)).detach()
+                if tuple(got.shape) != (rows, K) or not torch.allclose(got, tab.expand(rows, K), rtol=0, atol=1e-6):
+                    bad.append(dict(case='coefficient table on a batch of N samples', condition=cname, samples=rows, coefficients=K, r=r_,
+                                    violated='every row is the table of K coefficients', got=got.tolist(), want=tab.tolist()))
+            c.R_0 = A2.clone()
+            got = c.enforce(netKK, rr(0.5)).detach()
+            if not torch.allclose(got, A2.expand(rows, K), rtol=0, atol=1e-6):
+                bad.append(dict(case='coefficient table replaced on a condition that has already been evaluated', condition=cname, samples=rows,
+                                violated='the new table is not the one reproduced at r_0', got=got[0].tolist(), want=A2.tolist()))
+    # thin shells far from the origin in single precision (radii representable in float32): both boundaries are reproduced to rounding
+    import random as _r
+    rr_ = _r.Random(3)
+    for _ in range(12):
+        r0 = float(torch.tensor(rr_.uniform(200.0, 3000.0), dtype=torch.float32))
+        r1 = float(torch.tensor(r0 + rr_.uniform(0.2, 1.5), dtype=torch.float32))
+        R0, R1 = torch.tensor([1.0, -2.0, 0.5]), torch.tensor([0.25, 3.0, -1.0])
+        netK = FCNN(1, 3, hidden_units=(6,)).float()
+        cb = DirichletBVPSphericalBasis(r0, R0, r1, R1)
+        e0 = float((cb.enforce(netK, torch.full((n, 1), r0, dtype=torch.float32)).detach() - R0).abs().max())
+        e1 = float((cb.enforce(netK, torch.full((n, 1), r1, dtype=torch.float32)).detach() - R1).abs().max())
+        cs_ = DirichletBVPSpherical(r0, lambda a, b: 1.0 + torch.sin(a), r1, lambda a, b: torch.cos(b))
+        net3f = FCNN(3, 1, hidden_units=(6,)).float()
+        thf, phf = th.float(), ph.float()
+        e2 = float((cs_.enforce(net3f, torch.full((n, 1), r1, dtype=torch.float32), thf, phf).detach() - torch.cos(phf)).abs().max())
+        if max(e0, e1, e2) > 1e-5:
+            bad.append(dict(case='thin shell far from the origin, float32', r_0=r0, r_1=r1, violated='boundary values not reproduced to rounding',
+                            inner_error=e0, outer_error=e1, outer_error_physical=e2))
+            break
     # an inner radius of exactly 0 (the centre of a ball): the prescribed data is f(theta, phi) for every direction, as at any other radius
     from neurodiffeq.conditions import InfDirichletBVPSpherical
     fa = lambda a, b: 1.0 + torch.sin(a) * torch.cos(b)
